@@ -81,7 +81,7 @@ prop("C07", "TestC07", "exploration",
      q, t, required_labels=["measure:raw", "measure:snp", "measure:tn93", "tn93:P1,P2,Q>0", "identical-unambiguous"],
      exhaustive_note="17x17 symbol pairs x 2 contexts x 3 measures")
 
-q, t = tiers(8, 8000, 16, 60000, floor_q=2000, floor_t=20000)
+q, t = tiers(8, 6000, 16, 50000, floor_q=2000, floor_t=20000)
 prop("C10", "TestC10", "exploration",
      "rapid generates references (A/C/G/T or with IUPAC codes) and alignments built from alternating resolved/ambiguous segments (runs at either "
      "end, length-1 runs, runs one base apart, all-ambiguous rows, random rows); each output row is parsed and the sequence reconstructed "
@@ -110,7 +110,7 @@ prop("C16", "TestC16", "exploration",
      "or a must-reject verdict; distinct = hash of the byte stream + kind",
      q, t, required_labels=["kind:layout", "kind:blank", "kind:corrupt", "spec:accept", "spec:reject", "spec:free"])
 
-q, t = tiers(8, 10000, 16, 80000, floor_q=5000, floor_t=50000)
+q, t = tiers(8, 7000, 16, 60000, floor_q=5000, floor_t=50000)
 prop("C01", "TestC01", "exploration",
      "rapid generates a reference (6..60 nt, thorough 400; occasionally with IUPAC codes) and 1..5 queries of 1..3 (thorough 5) records each. "
      "Every record is built from a per-query truth row: CIGAR over M,=,X,I,D,N,P with optional H/S/HS clips, lengths 1..6 (rare long ones), placed at any "
@@ -124,7 +124,7 @@ prop("C01", "TestC01", "exploration",
      q, t, need_bin=True, required_labels=["op:I", "op:D", "op:N", "op:S", "op:H", "op:P", "op:=", "op:X", "leading-D", "trailing-D", "adjacent-I/D", "overlapping-records",
                             "disjoint-records", "conflicting-bases", "noise:unmapped", "noise:secondary", "pad", "window", "wrap", "threads>1", "pos=1", "ends-at-L"])
 
-q, t = tiers(8, 6000, 16, 40000, floor_q=3000, floor_t=30000)
+q, t = tiers(8, 3500, 16, 30000, floor_q=3000, floor_t=30000)
 prop("C02", "TestC02", "exploration",
      "Same alignment generator as C01 without conflicting bases and without two records sharing one insertion slot; insertions anywhere (before the "
      "first base, after the last, adjacent to D, several per record, in several records of one query, inside another record's match-only coverage). "
@@ -147,7 +147,7 @@ VAR_GEN = ("annotation model: reference 20..90 nt (thorough 300), 0..4 (thorough
            "as FASTA MSA (reference anywhere in the file or taken from the annotation, shared insertion slots with left/right/spread placement, extra "
            "all-gap columns) or as SAM records (C01 generator on the annotated reference, with or without --reference)")
 
-q, t = tiers(8, 4000, 16, 30000, floor_q=1000, floor_t=10000, q_timeout=400)
+q, t = tiers(8, 3000, 16, 25000, floor_q=1000, floor_t=10000, q_timeout=400)
 prop("C04", "TestC04", "exploration",
      "Each generated case is run through variants (MSA form) or sam variants (SAM form) with --append-snps; every row is parsed and checked "
      "against a coordinate-level oracle built from base sets and the NCBI table: (a) the positions mentioned as nuc: records or inside (nuc:...) "
@@ -162,7 +162,7 @@ prop("C04", "TestC04", "exploration",
                             "feat:unnamed", "feat:codon_start>1", "aa-in-reverse-feature", "aa-codon-spans-join", "aa-from-iupac-codon",
                             "snp-in-unnamed-feature", "codon-broken-by-gap", "gff:spec-phases", "row:aa", "row:nuc"])
 
-q, t = tiers(8, 3000, 16, 25000, floor_q=1000, floor_t=10000, q_timeout=400)
+q, t = tiers(8, 1800, 16, 15000, floor_q=1000, floor_t=10000, q_timeout=400)
 prop("C05", "TestC05", "exploration",
      "Indel-heavy variant of the C04 generator (up to 5 insertions and 5 deletions per query, at the alignment ends, adjacent to each other and to "
      "feature borders, MSA with other sequences' insertions and extra all-gap columns, and SAM form). Oracle: an independent scan in reference "
@@ -175,7 +175,7 @@ prop("C05", "TestC05", "exploration",
      q, t, need_bin=True, required_labels=["indel-after-earlier-gap-column", "insertion-abutting-end", "insertion-abutting-start", "deletion-abutting-start",
                             "deletion-abutting-end", "deletion-spanning-insertion-slot", "both-gap-columns", "form:sam", "form:msa"])
 
-q, t = tiers(8, 2500, 16, 20000, floor_q=500, floor_t=5000, q_timeout=400)
+q, t = tiers(8, 1600, 16, 14000, floor_q=500, floor_t=5000, q_timeout=400)
 prop("C11", "TestC11", "exploration",
      "Differential between commands on gofasta's own intermediate files: for every generated SAM + annotation, the row `sam variants` prints for a "
      "query must be identical (same records, same order) to the row `variants` prints for the reference/query pair written by `sam toPairAlign` "
@@ -186,7 +186,7 @@ prop("C11", "TestC11", "exploration",
      VAR_GEN + " (SAM form only); non-trivial = a query with >= 1 indel and >= 1 nucleotide difference; distinct = hash of the case",
      q, t, required_labels=["leg:toMultiAlign", "append-snps", "window", "reference-from-annotation", "format:gb", "format:gff"])
 
-q, t = tiers(8, 3000, 16, 25000, floor_q=500, floor_t=5000, q_timeout=400)
+q, t = tiers(8, 1500, 16, 12000, floor_q=500, floor_t=5000, q_timeout=400)
 prop("C13", "TestC13", "exploration",
      "For snps, variants and sam variants the same input is run per-sequence and with --aggregate --threshold T. Expected aggregate = for each distinct "
      "mutation string of the per-sequence output, (rows containing it)/(rows) as float64, printed %.9f, kept iff >= T — compared as a set of lines in "
@@ -244,7 +244,7 @@ prop("C08", "TestC08", "exploration",
                             "pair-threshold-binds", "target-threshold-binds", "multiple-hit", "ignore", "table"],
      exhaustive_note="allocation arithmetic: supplies 0..3^4 x requested 0..3^4 x no-fill (thorough: all points; quick: 1/8 sample rotated by seed)")
 
-q, t = tiers(8, 3000, 16, 20000, floor_q=1000, floor_t=10000, q_timeout=400)
+q, t = tiers(8, 2500, 16, 20000, floor_q=1000, floor_t=10000, q_timeout=600)
 prop("C09", "TestC09", "exploration",
      "Differential: the CSVs are produced by gofasta's own `updown list` from the generated alignments; topranking is run under the four "
      "(query,target) in {fasta,csv}^2 combinations with the same options and the four outputs must be byte-identical; the csv/csv output is also parsed "
